@@ -19,8 +19,10 @@ for p in vlib.TLA_CP.split(":"):
         print("missing %s" % p)
         sys.exit(1)
 bad = 0
+jtmp = os.path.join(vlib.scratch(), "jtmp")  # SANY leaves an empty tlc-<n> directory per run in java.io.tmpdir
+os.makedirs(jtmp, exist_ok=True)
 for f in sorted(glob.glob(os.path.join(vlib.SPEC, "*.tla"))):
-    p = subprocess.run(["java", "-cp", vlib.TLA_CP, "tla2sany.SANY", f], cwd=vlib.SPEC, stdout=subprocess.PIPE,
+    p = subprocess.run(["java", "-Djava.io.tmpdir=" + jtmp, "-cp", vlib.TLA_CP, "tla2sany.SANY", f], cwd=vlib.SPEC, stdout=subprocess.PIPE,
                        stderr=subprocess.STDOUT, text=True)
     if p.returncode != 0 or "Semantic errors" in p.stdout or "Fatal errors" in p.stdout or "*** Errors" in p.stdout:
         print("SANY rejects %s:\n%s" % (f, p.stdout[-1500:]))
